@@ -613,6 +613,18 @@ func C01(c *ev.Ctx) {
 	}
 	nb, nbAcc := c01Boundary(c)
 	c.Set("boundary_constructs_tried", nb)
+	// identifier choice across the files of one package: one file imports a special library, another file a user
+	// package of the same name (both accepted: every call keeps the meaning of the package its file imports)
+	{
+		var two []lookCase
+		for _, lc := range lookCases {
+			if len(lc.files) > 0 {
+				two = append(two, lc)
+			}
+		}
+		lt, le := lookalikes(c, two, "c01.lookalike-pkg.")
+		c.Set("two_file_lookalike_packages", fmt.Sprintf("%d tried, %d executed", lt, le))
+	}
 	c.Set("boundary_constructs_accepted_and_executed", nbAcc)
 	c.Set("programs", tot.Programs)
 	c.Set("disagreements_checked", tot.Compared)
